@@ -3,6 +3,7 @@
 T=$1
 cd /verif
 mkdir -p /tmp/ev
+mkdir -p /tmp/ev
 for p in C01 C02 C03 C04 C05 C06 C07 C08 C10 C11 C12 C14 C15 C18 C19 C20; do
   /venv/bin/python -m g3dsa.check $p --repo $T --evidence-dir /tmp/ev > /tmp/ev/all_$p.out 2>&1; rc=$?
   if [ $rc -ne 0 ]; then
